@@ -22,6 +22,9 @@ FUNCS = [
     ("valid_set_attr_len", "libxcm/core/attr_tree.c"),
     ("tcp_opts_equal", "libxcm/tp/tcp/tcp_attr.c"),
     ("mbuf_is_hdr_valid", "libxcm/tp/tcp/xcm_tp_tcp.c"),
+    ("next_capacity", "libxcm/core/xpoll.c"),
+    ("is_special", "libxcm/core/attr_path.c"),
+    ("is_key_char", "libxcm/core/attr_path.c"),
 ]
 
 SIZEOF = {"bool": 1, "_Bool": 1, "int64_t": 8, "double": 8, "uint32_t": 4, "int": 4}
@@ -106,6 +109,8 @@ class Tr:
         if k in ("ImplicitCastExpr", "ParenExpr", "ConstantExpr", "CStyleCastExpr"):
             return self.expr(inner[0], env)
         if k == "IntegerLiteral":
+            return (str(int(n["value"])), "n")
+        if k == "CharacterLiteral":
             return (str(int(n["value"])), "n")
         if k == "DeclRefExpr":
             rd = n["referencedDecl"]
